@@ -188,7 +188,7 @@ func StartSUT(w *World, h *History, conf SrvConf, port int) (*SUT, error) {
 		tcpCfg.TLSConfig = srvTLS
 		wsCfg.TLSConfig = srvTLS
 	}
-	s.InProc = lime.InProcessAddr(fmt.Sprintf("inproc-%d-%d", port, w.Uniq()))
+	s.InProc = lime.InProcessAddr(fmt.Sprintf("inproc-%d-%d", port, ProcUniq()))
 	if conf.Full {
 		b := lime.NewServerBuilder().Name(serverNode.Name).Domain(serverNode.Domain).Instance(serverNode.Instance).
 			CompressionOptions(toComp(conf.Comp)...).EncryptionOptions(toEnc(conf.Enc)...).ChannelBufferSize(conf.Buf)
